@@ -2,6 +2,7 @@
 # run every registered quick check on the CURRENT /repo tree (must be clean), validate MANIFEST and evidence files
 cd /verif
 if [ -n "$(git -C /repo status --porcelain)" ]; then echo "/repo is dirty"; exit 2; fi
+python3 gen_manifest.py > /dev/null || { echo "gen_manifest failed"; exit 2; }
 rc=0
 for id in $(python3 -c "import json; print(' '.join(c['property_id'] for c in json.load(open('MANIFEST.json'))['checks']))"); do
   out=$(./vcheck $id --tier ${1:-quick} 2>&1); code=$?
